@@ -31,6 +31,9 @@ type Shared struct {
 	Deep    []byte // shared HSMS bytes of a message nested 140 lists deep (read-only)
 	Fill    map[string]interface{}
 	EllFill map[string]interface{}
+	Scal    ast.ItemNode // one item of every remaining kind with variables: F8, F4, BOOLEAN, B, U8
+	ScalA   map[string]interface{}
+	ScalB   map[string]interface{} // other values for the same variables
 }
 
 // NewShared builds a fresh set of shared objects. It must not call any observer
@@ -59,6 +62,11 @@ func NewShared() *Shared {
 	s.Big, s.Deep = bigInputs()
 	s.Fill = map[string]interface{}{"a": 9, "c": "text", "d": -4, "x": 1, "y": 2, "s": "abc", "b": ast.NewBooleanNode(true)}
 	s.EllFill = map[string]interface{}{"...[0]": 1, "...[1]": 1}
+	s.Scal = ast.NewListNode(ast.NewFloatNode(8, 1.5, "f"), ast.NewFloatNode(4, "g", "h"), ast.NewBooleanNode("t", true), ast.NewBinaryNode("bin", 3), ast.NewUintNode(8, "u", 7))
+	s.ScalA = map[string]interface{}{"f": 2.5, "g": 0.25, "h": -1.0, "t": false, "bin": 200, "u": 18446744073709551615.0 / 2, "unknown": 1}
+	s.ScalB = map[string]interface{}{"f": -7.0, "g": 1e10, "h": 3.0, "t": true, "bin": 0, "u": 1, "other": "x"}
+	delete(s.ScalA, "u")
+	s.ScalA["u"] = uint64(1) << 63
 	return s
 }
 
@@ -98,7 +106,7 @@ func msgs(ms []*ast.DataMessage, errs, warns []string) string {
 	return fmt.Sprintf("%s errs=%q warns=%q", sb.String(), errs, warns)
 }
 
-// Ops is the operation alphabet (17 operations).
+// Ops is the operation alphabet (19 operations).
 var Ops = []Op{
 	{"String(template)", func(s *Shared) string { return fmt.Sprint(s.Tmpl) }},
 	{"ToBytes(complete message)", func(s *Shared) string { return fmt.Sprintf("%x", s.Compl.ToBytes()) }},
@@ -137,6 +145,14 @@ var Ops = []Op{
 			return "refused"
 		}
 		return fmt.Sprintf("%s %x", m.Type(), m.ToBytes())
+	}},
+	{"FillVariables(float/boolean/binary items, values A)", func(s *Shared) string {
+		r := s.Scal.FillVariables(s.ScalA)
+		return fmt.Sprint(r, r.Variables(), fmt.Sprintf("%x", r.ToBytes()))
+	}},
+	{"FillVariables(float/boolean/binary items, values B)+String", func(s *Shared) string {
+		r := s.Scal.FillVariables(s.ScalB)
+		return fmt.Sprint(r, r.Variables(), fmt.Sprintf("%x", r.ToBytes()), s.Scal)
 	}},
 	{"hsms.Parse(2048-element arrays)", func(s *Shared) string {
 		m, ok := hsms.Parse(s.Big)
@@ -182,7 +198,8 @@ func SharedDigest(s *Shared) string {
 		return strings.Join(ks, ",")
 	}
 	return fmt.Sprint(s.Tmpl, s.Tmpl.Variables(), s.IntNode, s.AVar, s.Child, s.Incompl.String(), s.Incompl.Variables(), s.Compl.String(),
-		fmt.Sprintf("%x %x %x", s.Compl.ToBytes(), s.Compl.SystemBytes(), s.Ctl.ToBytes()), s.Text, s.Text2, fmt.Sprintf("%x", s.Bytes), keys(s.Fill), keys(s.EllFill))
+		fmt.Sprintf("%x %x %x", s.Compl.ToBytes(), s.Compl.SystemBytes(), s.Ctl.ToBytes()), s.Text, s.Text2, fmt.Sprintf("%x", s.Bytes), keys(s.Fill), keys(s.EllFill),
+		s.Scal, s.Scal.Variables(), keys(s.ScalA), keys(s.ScalB))
 }
 
 // Sequential computes the reference result of every operation run alone on fresh objects.
